@@ -86,7 +86,14 @@ type Hist struct {
 	LateInW2  bool // release the late answers in the middle of wave 2 (otherwise before it)
 	Perturb   bool
 	Stall     bool // the F-C01-1 scenario (mid-body stall across five read timeouts)
-	Handshake int  // 0: normal; 1: node never answers STARTUP; 2: node closes during the handshake; 3: cut mid-header of SUPPORTED
+	// the coalescer-cancellation family: write coalescing with a window of CoalesceMs, the first CancelN
+	// callers cancel their context CancelMs after calling (inside the window, after their frame was handed
+	// to the flusher), their answers come late, and a second concurrent wave reuses stream ids meanwhile
+	CoalCancel bool
+	CoalesceMs int
+	CancelMs   int
+	CancelN    int
+	Handshake  int // 0: normal; 1: node never answers STARTUP; 2: node closes during the handshake; 3: cut mid-header of SUPPORTED
 }
 
 func (h *Hist) String() string {
@@ -127,7 +134,7 @@ type Report struct {
 // ---------------------------------------------------------------------------------------------
 
 type obsCtx struct {
-	set                        *obsSet
+	set                          *obsSet
 	started, finished, abandoned int32
 }
 
@@ -390,6 +397,8 @@ func Run(h *Hist) *Report {
 	cfg.Logger = log.New(io.Discard, "", 0)
 	if !h.Coalesce {
 		cfg.WriteCoalesceWaitTime = 0
+	} else if h.CoalesceMs > 0 {
+		cfg.WriteCoalesceWaitTime = time.Duration(h.CoalesceMs) * time.Millisecond
 	}
 
 	var s *gocql.Session
@@ -455,6 +464,8 @@ func Run(h *Hist) *Report {
 
 	if h.Stall {
 		r.stallScenario(s, pool, rep, viol)
+	} else if h.CoalCancel {
+		r.coalCancelScenario(s, pool, rep, viol)
 	} else {
 		r.waves(s, pool, poolConn, rep, viol, closeSession)
 	}
@@ -489,9 +500,12 @@ func Run(h *Hist) *Report {
 			}
 			// every connection of the session: started - ended = ids still reserved (control connection: 0)
 			if st-en != leaked && len(anom) == 0 {
-				// the control connection may have a heartbeat in flight; tolerate by re-reading once
-				time.Sleep(20 * time.Millisecond)
-				st, en, _ = obs.totals()
+				// a heartbeat may be in flight on either connection: the count has to settle, not to be
+				// right at one instant (no verdict depends on the machine's speed)
+				for dl := time.Now().Add(3 * time.Second); st-en != leaked && time.Now().Before(dl); {
+					time.Sleep(10 * time.Millisecond)
+					st, en, _ = obs.totals()
+				}
 				if st-en != leaked {
 					viol("observer", "", "StreamObserver at quiescence: started %d, ended %d, but %d ids are legitimately reserved", st, en, leaked)
 				}
@@ -556,9 +570,49 @@ func Run(h *Hist) *Report {
 		rep.Final = append(rep.Final, f)
 		rep.PrefixLen = append(rep.PrefixLen, pl)
 	}
+	// every frame the node received whole on the pool connection was written by a write that exec was told
+	// succeeded (or that is still in progress): a request on the wire that the driver believes unwritten
+	// keeps no stream id reserved for its answer
+	for _, t := range rep.Traces {
+		if t.Conn != poolConn {
+			continue
+		}
+		streamOf := map[int]int{}
+		allowed := map[int]int{}
+		for _, e := range t.Events {
+			switch e.Kind {
+			case 1: // vcAlloc
+				streamOf[e.Call] = e.A
+			case 6: // vcWriteBegin
+				allowed[streamOf[e.Call]]++
+			case 7: // vcWriteEnd
+				if e.A != 0 {
+					allowed[streamOf[e.Call]]--
+				}
+			}
+		}
+		// frames that arrived after a torn write are not comparable (the byte stream is out of step there)
+		cutoff := int64(-1)
+		for _, w := range pool.Link().C2S.Writes() {
+			if w.Err != nil || w.N < w.Len {
+				cutoff = w.Offset + int64(w.N)
+				break
+			}
+		}
+		got := map[int]int{}
+		for _, rq := range pool.Requests() {
+			if rq.ParseErr == nil && (cutoff < 0 || rq.Offset+int64(len(rq.Raw)) <= cutoff) {
+				got[rq.Header.Stream]++
+			}
+		}
+		for sid, k := range got {
+			if k > allowed[sid] {
+				viol("unwritten-request-on-wire", "", "the node received %d complete request frame(s) on stream %d of the pool connection, but only %d write(s) on that stream were reported to exec as successful: a frame the driver treats as never written (stream id released) reached the server", k, sid, allowed[sid])
+			}
+		}
+	}
 	if !n.WaitFor(3*time.Second, func() bool { return n.OpenConns() == 0 }) {
 		viol("close-leaves-connections", "", "after Session.Close %d connections are still open", n.OpenConns())
 	}
 	return rep
 }
-
